@@ -273,10 +273,11 @@ structure TS where
   abortedSuites : List (Option Path)    -- `_aborted_suites.add(suite)` (None when called without suite)
   abortAll : Bool
   err : Option String         -- the model reached a state the real code would crash in (assertion/lookup)
+  ptLog : List (Nat × (InstKey × String × Nat))   -- per-thread objects created: (items emitted by then, object)
 
 instance : Inhabited TS :=
   ⟨{ sess := Session.St.init, out := #[], acts := 0, cut := none, nextChild := 1, insts := Insts.empty,
-     abortedSuites := [], abortAll := false, err := none }⟩
+     abortedSuites := [], abortAll := false, err := none, ptLog := [] }⟩
 
 abbrev M := StateM TS
 
@@ -404,7 +405,8 @@ def getFixtureResult (P : Proj) (svs : List SuiteView) (w : Nat) (k : InstKey) (
             -- `setup_object` → `_build_fixture_result_from_func`: the fixture function runs now
             let r ← runUnit (.fx f.func false) f.setup
             if r.isNone then
-              modify fun ts => { ts with insts := { ts.insts with ptObjects := ts.insts.ptObjects ++ [(ik, name, w)] } }
+              modify fun ts => { ts with insts := { ts.insts with ptObjects := ts.insts.ptObjects ++ [(ik, name, w)] },
+                                         ptLog := ts.ptLog ++ [(ts.out.size, (ik, name, w))] }
             return r
         else return none
 
@@ -529,6 +531,7 @@ structure TaskOut where
   res : ResClass
   eff : Effects
   err : Option String
+  ptLog : List (Nat × (InstKey × String × Nat))
 deriving Repr, Inhabited
 
 def phaseProgram (P : Proj) (svs : List SuiteView) (w : Nat) (suite : Path) (loc : Loc)
@@ -638,11 +641,11 @@ def runTask (P : Proj) (insts : Insts) (w : Nat) (t : TaskId) (run : Bool) (reas
     (cut : Option Nat) : TaskOut :=
   let svs := allSuites P
   let ts0 : TS := { sess := Session.St.init, out := #[], acts := 0, cut := cut, nextChild := 1, insts := insts,
-                    abortedSuites := [], abortAll := false, err := none }
+                    abortedSuites := [], abortAll := false, err := none, ptLog := [] }
   let ((res, kept'), ts) := (taskProgram P svs w t run reason kept).run ts0
   { items := ts.out.toList, res := res,
     eff := { insts := ts.insts, kept := kept', abortedSuites := ts.abortedSuites, abortAll := ts.abortAll,
              failed := !ts.sess.failures.isEmpty },
-    err := ts.err }
+    err := ts.err, ptLog := ts.ptLog }
 
 end LccModel.Run
